@@ -46,4 +46,9 @@ def run(chk):
                                  {"emit_batcher::Sender": "Drop for Sender closes the channel: the first copy dropped stops the receiver while the others still send, "
                                                           "their items are discarded and a flush reports success at once",
                                   "emit_batcher::Receiver": "two receivers would take batches concurrently and both clear is_in_batch"})
+    from . import shapes
+    shapes.retry_when_nonempty(chk, P, "C06.R4:retry-when-nonempty")
+    shapes.returns_binop(chk, P, "C06.R1:Channel::is_empty", "the provided Channel::is_empty is `len() == 0`", "emit_batcher::Channel::is_empty", "Eq",
+                         lambda o, b: o[0] == "call" and o[1].callee.get("name") == "len", lambda o, b: mir.o_const_value(o) == 0,
+                         "a channel would report itself empty exactly when it holds items")
     return chk
